@@ -40,10 +40,14 @@ Emit(l) == prog' = Append(prog, l)
 EmitAll(ls) == prog' = prog \o ls
 
 (* visual width of a line: tabs go to the next multiple of 4 *)
-RECURSIVE WidthFrom(_, _, _)
-WidthFrom(items, i, c) == IF i > Len(items) THEN c
-                          ELSE IF items[i].s = "T" THEN WidthFrom(items, i + 1, c + 4 - (c % 4))
-                          ELSE WidthFrom(items, i + 1, c + items[i].w)
+(* a statement may be split over several physical lines (item NLc): the width is that of its widest physical line *)
+NLc == [s |-> "L", x |-> "\n", w |-> 0, n |-> 0]
+RECURSIVE WidthFrom4(_, _, _, _)
+WidthFrom4(items, i, c, m) == IF i > Len(items) THEN (IF c > m THEN c ELSE m)
+                              ELSE IF items[i] = NLc THEN WidthFrom4(items, i + 1, 0, IF c > m THEN c ELSE m)
+                              ELSE IF items[i].s = "T" THEN WidthFrom4(items, i + 1, c + 4 - (c % 4), m)
+                              ELSE WidthFrom4(items, i + 1, c + items[i].w, m)
+WidthFrom(items, i, c) == WidthFrom4(items, i, c, 0)
 LineWidth(l) == WidthFrom(l.items, 1, 0)
 
 (* simulation: random fillers; exhaustive: every STRUCTURE with one canonical filler per slot *)
@@ -330,23 +334,58 @@ Simple ==
     /\ scope' = PopControls(scope)
     /\ UNCHANGED <<phase, nfun, ndecl, viol, wrapped>>
 
+(* ---- statements split over two physical lines ------------------------------------------------------------- *)
+(* The Norm: "the following lines created must be indented compared to the first line ... operators will be at  *)
+(* the beginning of the new line".  The continuation is written with the indentation the tool demands (scope    *)
+(* indentation + depth of the open parentheses, + 1 in an assignment); other indentations are not claimed.      *)
+(* kind "stmt2" / "ctrl2": one statement, two physical lines; the line-local violation operators skip them.     *)
+LeadOps == {L("+ ", 2), L("- ", 2), L("&& ", 3), L("|| ", 3)}
+(* a leading "* " only after operands that end a value unambiguously for a token-level tool: "(t)(x) * y" reads as a  *)
+(* cast of a dereference (explored, not claimed)                                                                     *)
+MulLeft == {<<V1>>, <<N1>>, <<V3, L("[", 1), V1, L("]", 1)>>, <<V1, L("++", 2)>>, <<L("(", 1), V1, L(" + ", 3), N1, L(")", 1)>>,
+            <<F4, L("(", 1), V1, L(")", 1)>>}
+SplitStmts(d) ==
+    {[st |-> "IsFunctionCall", items |-> <<F4, L("(", 1), V1, L(",", 1), NLc>> \o Tabs(d + 1) \o e \o <<L(");", 2)>>] : e \in ExprChoice}
+    \cup {[st |-> "IsAssignation", items |-> <<V1, L(" = ", 3), F7, L("(", 1), V3, L(",", 1), NLc>> \o Tabs(d + 2) \o e \o <<L(");", 2)>>]
+              : e \in ExprChoice}
+    \cup {[st |-> "IsAssignation", items |-> <<V3, L(" = ", 3)>> \o e \o <<NLc>> \o Tabs(d + 1) \o <<o>> \o e2 \o <<L(";", 1)>>]
+              : o \in Pick(LeadOps), e \in ExprChoice, e2 \in ExprChoice}
+    \cup {[st |-> "IsAssignation", items |-> <<V3, L(" = ", 3)>> \o e \o <<NLc>> \o Tabs(d + 1) \o <<L("* ", 2)>> \o e2 \o <<L(";", 1)>>]
+              : e \in Pick(MulLeft), e2 \in Pick(MulLeft)}
+    \cup {[st |-> "IsExpressionStatement", items |-> <<L("return (", 8), F4, L("(", 1), V1, L(",", 1), NLc>> \o Tabs(d + 2) \o e \o <<L("));", 3)>>]
+              : e \in ExprChoice}
+SimpleSplit ==
+    /\ phase = "body" /\ body + 2 + ReserveOf(CloseBraceless(open)) <= MaxBody
+    /\ \E s \in Pick(SplitStmts(Depth)) :
+        LET l == Line("stmt2", s.st, Tabs(Depth) \o s.items) IN
+        /\ LineWidth(l) <= 80
+        /\ Emit(l)
+    /\ body' = body + 2
+    /\ elseOK' = ElseTarget(ClosedBy(open))
+    /\ open' = CloseBraceless(open)
+    /\ scope' = PopControls(scope)
+    /\ UNCHANGED <<phase, nfun, ndecl, viol, wrapped>>
+
 CtrlHead(kw, c) == <<L(kw, IF kw = "if (" THEN 4 ELSE IF kw = "while (" THEN 7 ELSE 9)>> \o c \o <<L(")", 1)>>
 Control ==
     /\ phase = "body" /\ Len(open) < MaxDepth
-    /\ \E kind \in {"if", "while", "elseif", "else"}, braced \in BOOLEAN :
+    /\ \E kind \in {"if", "while", "elseif", "else"}, braced \in BOOLEAN, split \in (IF Sim THEN Pick({FALSE, FALSE, FALSE, TRUE}) ELSE {FALSE}) :
         /\ kind \in {"elseif", "else"} => elseOK = Depth
+        /\ split => kind \in {"if", "while"}
         (* Norm: "control structures must use braces, unless they contain a single instruction on a single line": *)
         (* a braced block never hangs under a braceless control structure                                         *)
         /\ (IF braced /\ open # <<>> THEN open[Len(open)].braced ELSE TRUE)    \* IF, not \/: TLC splits action-level disjunctions
-        /\ body + (IF braced THEN 2 ELSE 1) + ReserveOf(Append(open, [braced |-> braced, kind |-> kind, n |-> 0, d |-> Depth])) <= MaxBody
-        /\ \E c \in CondChoice :
-            LET head == IF kind = "else" THEN <<L("else", 4)>>
-                        ELSE CtrlHead(IF kind = "if" THEN "if (" ELSE IF kind = "while" THEN "while (" ELSE "else if (", c)
-                l == Line("ctrl", "IsControlStatement", Tabs(Depth) \o head)
+        /\ body + (IF braced THEN 2 ELSE 1) + (IF split THEN 1 ELSE 0)
+                + ReserveOf(Append(open, [braced |-> braced, kind |-> kind, n |-> 0, d |-> Depth])) <= MaxBody
+        /\ \E c \in CondChoice, c2 \in CondChoice, lo \in Pick({L("&& ", 3), L("|| ", 3)}) :
+            LET cc == IF split THEN c \o <<NLc>> \o Tabs(Depth + 1) \o <<lo>> \o c2 ELSE c
+                head == IF kind = "else" THEN <<L("else", 4)>>
+                        ELSE CtrlHead(IF kind = "if" THEN "if (" ELSE IF kind = "while" THEN "while (" ELSE "else if (", cc)
+                l == Line(IF split THEN "ctrl2" ELSE "ctrl", "IsControlStatement", Tabs(Depth) \o head)
             IN /\ LineWidth(l) <= 80
                /\ EmitAll(<<l>> \o (IF braced THEN <<Line("lbrace", "IsBlockStart", Tabs(Depth) \o <<L("{", 1)>>)>> ELSE <<>>))
         /\ open' = Append(open, [braced |-> braced, kind |-> kind, n |-> 0, d |-> Depth])
-        /\ body' = body + (IF braced THEN 2 ELSE 1)
+        /\ body' = body + (IF braced THEN 2 ELSE 1) + (IF split THEN 1 ELSE 0)
         /\ scope' = PushScope("ControlStructure", braced)
     /\ elseOK' = 0
     /\ UNCHANGED <<phase, nfun, ndecl, viol, wrapped>>
@@ -383,7 +422,7 @@ Finish ==
 (* never paint into a corner: every open braced block must still be closable within MaxBody *)
 Feasible == phase = "body" => body + Reserve <= MaxBody
 
-Next == \/ Prologue \/ HPrologue \/ StartFunc \/ Decls \/ Simple \/ Control \/ CloseBlock \/ EndFunc \/ Finish
+Next == \/ Prologue \/ HPrologue \/ StartFunc \/ Decls \/ Simple \/ SimpleSplit \/ Control \/ CloseBlock \/ EndFunc \/ Finish
 Spec == Init /\ [][Next]_nvars
 
 (***************************************************************************)
